@@ -112,7 +112,7 @@ def tagger(variant: str, seed: int):
 
 
 def tagged_job(prog: str, variant: str, seed: int = 0) -> JobOut:
-    progs = {p.name: p for p in C.corpus("thorough" if prog.startswith("gen") else "quick", seed)}
+    progs = {p.name: p for p in C.corpus("thorough" if prog.startswith(("gen", "g2_")) else "quick", seed)}
     P = progs[prog]
     try:
         C.build_pytato(P)
